@@ -67,3 +67,28 @@ Theorem C02_revision_invariant_reestablished :
     obj_revision o' = Some (ow_rev ow).
 Proof. exact rec_obj_revision_consistent_after. Qed.
 Print Assumptions C02_revision_invariant_reestablished.
+
+(** The per-apply monitor evaluated on the implementation (coq/corr/C02Corr.v) accepts every pass of the model. *)
+From PKOCorr Require Import PhaseCorr C02Corr C05Sound C02Sound.
+Theorem C02_monitor_sound : forall c : pcase, C02Corr.monitor (set_obs c (model_run c)) = true.
+Proof. exact C02Sound.monitor_sound. Qed.
+Print Assumptions C02_monitor_sound.
+
+(** status.revision: set once, to a number strictly greater than every declared previous revision's, and
+    never while one of them has not reported its own. *)
+From PKO Require Import ObjectSet RevisionSetProofs.
+Theorem C02_status_revision_fixed_once_set :
+  forall sw mem, os_revision mem <> 0%Z -> revision_pass sw mem = (sw, [], mem, RevGo).
+Proof. exact revision_fixed_once_set. Qed.
+Print Assumptions C02_status_revision_fixed_once_set.
+
+Theorem C02_status_revision_exceeds_previous :
+  forall sw mem sw1 evs1 mem1 rr,
+    os_revision mem = 0%Z -> os_prev mem <> [] ->
+    revision_pass sw mem = (sw1, evs1, mem1, rr) ->
+    (os_revision mem1 = 0%Z /\ rr <> RevGo) \/
+    (forall n, In n (os_prev mem) ->
+       exists p, find_set (sw_sets sw) (oi_kind (os_id mem)) (oi_ns (os_id mem)) n = Some p /\
+                 os_revision p <> 0%Z /\ (os_revision p < os_revision mem1)%Z).
+Proof. exact revision_from_previous. Qed.
+Print Assumptions C02_status_revision_exceeds_previous.
